@@ -37,17 +37,23 @@ TEXT = {
     "C05": ("State-reset completeness between Einsums (necessary condition of independent "
             "compilation): every per-Einsum field of the shared Program/Tensor objects is restored, "
             "analysis passes leave shared tensors reset, translator objects with per-Einsum state "
-            "are built per Einsum. Does not decide that the composed program computes the "
-            "composition.",
+            "are built per Einsum; every Einsum's footer returns its output to the declared, "
+            "unpartitioned layout (the footer rules of C07). Does not decide that the composed "
+            "program computes the composition.",
             "AST write-set / must-pass-through path analysis over Program, Tensor, HiFiber"),
     "C06": ("Closedness, necessary conditions only: every literal-bearing identifier an emitter "
             "reads is spelled the way some emitter binds it; mode-guarded binders are read only "
             "under that mode; temporaries are named before use; clones of a computed-name "
-            "derivation agree. Does not decide statement order per specification or data-built names.",
+            "derivation agree; the *_pos payload and the enumerate() wrapper follow one predicate on "
+            "every path; the merger's input binder exists whenever its reader does; collections keyed "
+            "by rank tuples are probed with tuples. Does not decide statement order per specification "
+            "or data-built names.",
             "abstract interpretation of name templates + interprocedural guard sets"),
     "C07": ("Only the output tensor can be the target of populate (<<), getPayloadRef/"
-            "iterRangeShapeRef and the in-place update: provenance of every write site. Does not "
-            "decide run-time rank ids or snapshot equality of inputs.",
+            "iterRangeShapeRef and the in-place update: provenance of every write site; the footer "
+            "un-partitions the output on every path, renames rank ids after every change of rank "
+            "structure, and flatten/unflatten use levels = group size - 1. Does not decide run-time "
+            "rank ids or snapshot equality of inputs.",
             "AST provenance (def-use) check of write-construct sites"),
     "C09": ("Precedence safety for every HiFiber tree any builder in teaal/trans can construct: "
             "abstract interpretation of the builder code over expression kinds with a printer model "
@@ -57,11 +63,15 @@ TEXT = {
     "C10": ("Structural necessary conditions of a correct statement order: node identity total over "
             "fields, translator dispatch exhaustive with no empty arm, required kind-level "
             "dependence edges present per builder, no dangling emitting node, hoisting guarded by "
-            "non-descendance.",
+            "non-descendance, loop and metrics chains open in loop order and close in reverse, "
+            "per-element edge-building loops cover their whole collection and no edge is built from a "
+            "finished loop's left-over.",
             "AST structural rules + kind-level may-edge graph of flow_graph.py"),
     "C12": ("Trace labels and file-name schemas agree between registration and consumption by "
             "construction of the emitters; begin/end pairing; intersector create/feed/query and "
-            "leader selection agree; sibling payload-filter predicates agree.",
+            "leader selection agree (and depend on the rank being traced); sibling payload-filter "
+            "predicates agree; no registration decision reads a finished loop's left-over or is "
+            "skipped by a de-duplication coarser than the element.",
             "string-template abstract values + sibling cross-checks over collector/metrics"),
     "C13": ("Fusion.add_einsum is a well-formed state machine for all call histories: the decision "
             "reads config, temporal prefix and component set paired with the incoming values; "
